@@ -67,29 +67,28 @@ Print Assumptions C07_varint_roundtrip.
 Print Assumptions C07_varint_size.
 Print Assumptions C07_decode_varint_is_grammar.
 
-(* non-vacuity: a snapshot with two DBIs (one empty), an entry without value, flags >= 128, a 200-byte
-   value (2-byte length varint) is valid, and its encoding decodes back *)
-Definition C07_example_snap : snap :=
-  mkSnap 3 1 (mkMeta [103;101;110] [105] [] 12345 1700000000000000000 [100;98] 0)
-    [mkDbi [112;100;110;115] 4 [100;117;112] [mkKV [107;49] (repeat 7 200) 1700000000000000001 0;
-                                              mkKV [107;50] [] 0 129;
-                                              mkKV [107;51] [0;255] 18446744073709551615 4294967295];
-     mkDbi [101] 0 [] []].
-Example C07_example_valid : valid C07_example_snap = true.
-Proof. vm_compute. reflexivity. Qed.
+(* non-vacuity: a snapshot with two DBIs (one without entries), an entry without value, flags >= 128, a
+   200-byte value (2-byte length varint), maximal timestamp and flags is valid, its encoding decodes back
+   with both the model of the hand-written decoder and the specification *)
 Example C07_example_roundtrip :
-  match custom_encode C07_example_snap with
-  | Ok b => custom_decode b = Ok C07_example_snap /\ spec_decode b = Ok C07_example_snap
+  let s := mkSnap 3 1 (mkMeta [103;101;110] [105] [] 12345 1700000000000000000 [100;98] 0)
+             [mkDbi [112;100;110;115] 4 [100;117;112]
+                [mkKV [107;49] (repeat 7 200) 1700000000000000001 0;
+                 mkKV [107;50] [] 0 129;
+                 mkKV [107;51] [0;255] 18446744073709551615 4294967295];
+              mkDbi [101] 0 [] []] in
+  valid s = true /\
+  match custom_encode s with
+  | Ok b => custom_decode b = Ok s /\ spec_decode b = Ok s /\ length b = 304%nat
   | _ => False
   end.
-Proof. vm_compute. split; reflexivity. Qed.
-(* a message no encoder of this code base writes: reversed field order, an unknown field at each level,
-   a repeated scalar — it satisfies the hypotheses of C07_forward_compat *)
-Definition C07_example_msg : bytes :=
-  [32;1; 26;15; 40;9; 18;8; 125;1;2;3;4; 10;1;107; 10;1;100; 8;7; 8;3; 18;5; 48;0; 10;1;103; 88;42].
+Proof. vm_compute. repeat split; reflexivity. Qed.
+(* a message no encoder of this code base writes — reversed field order, an unknown field at each level
+   (varint, fixed32, varint, varint), a repeated scalar — satisfies the hypotheses of C07_forward_compat *)
 Example C07_example_compat :
-  match wire_parse C07_example_msg with
-  | Some fs => schema_ok fs = true /\ custom_decode C07_example_msg = spec_snapshot fs
+  let m := [32;1; 26;15; 40;9; 18;8; 125;1;2;3;4; 10;1;107; 10;1;100; 8;7; 8;3; 18;5; 48;0; 10;1;103; 88;42] in
+  match wire_parse m with
+  | Some fs => schema_ok fs = true /\ custom_decode m = spec_snapshot fs
                /\ exists s, spec_snapshot fs = Ok s /\ s_fmt s = 3 /\ length (s_dbis s) = 1%nat
   | None => False
   end.
